@@ -111,7 +111,9 @@ func c19Value(d, k int) string { return strconv.Itoa((d+1)*10 + k + 1) }
 
 func (s *c19Sys) Apply(e clustermc.Ev) []clustermc.Fail {
 	var fs []clustermc.Fail
-	add := func(k, f string, a ...interface{}) { fs = append(fs, clustermc.Fail{Key: k, What: fmt.Sprintf(f, a...)}) }
+	add := func(k, f string, a ...interface{}) {
+		fs = append(fs, clustermc.Fail{Key: k, What: fmt.Sprintf(f, a...)})
+	}
 	if e.K == "tick" {
 		sched.AdvanceNS(int64(e.B) * 1e6)
 		return nil
